@@ -321,7 +321,9 @@ def merge_states(c, base, a, b, strict=False):
                                  oa.dom if _same(oa.dom, ob.dom) else z3.If(c, oa.dom, ob.dom),
                                  oa.tuple_valued)
         elif isinstance(oa, HSeq):
-            out.heap[oid] = HSeq(z3.simplify(z3.If(c, oa.n, ob.n)), oa.arr if oa.arr.eq(ob.arr) else z3.If(c, oa.arr, ob.arr))
+            if oa.kind != ob.kind:
+                raise NoMerge("sequence kind")
+            out.heap[oid] = HSeq(z3.simplify(z3.If(c, oa.n, ob.n)), oa.arr if oa.arr.eq(ob.arr) else z3.If(c, oa.arr, ob.arr), oa.kind)
         elif isinstance(oa, HObject):
             o = oa.copy()
             if set(oa.fields) != set(ob.fields):
